@@ -73,7 +73,8 @@ func generateArgs(args []string, ev *eval.Evaler, p np.Path, cfg Config) ([]RawI
 		ns, _ := eval.SplitIncompleteQNameNs(qname)
 		var items []RawItem
 		eachVariableInNs(ev, p, ns, func(varname string) {
-			items = append(items, noQuoteItem(sigil+parse.QuoteVariableName(ns+varname)))
+			// The argument is a word, not a variable name after "$".
+			items = append(items, noQuoteItem(parse.Quote(sigil+ns+varname)))
 		})
 		return items, nil
 	case "del":
@@ -81,7 +82,7 @@ func generateArgs(args []string, ev *eval.Evaler, p np.Path, cfg Config) ([]RawI
 		// offer builtin variables.
 		var items []RawItem
 		addItem := func(varname string) {
-			items = append(items, noQuoteItem(parse.QuoteVariableName(varname)))
+			items = append(items, noQuoteItem(parse.Quote(varname)))
 		}
 		ev.Global().IterateKeysString(addItem)
 		eachDefinedVariable(p[len(p)-1], p[0].Range().From, addItem)
